@@ -3,6 +3,7 @@ import GoLevel.Model.LSM
 import GoLevel.Proofs.LSMCompactView
 import GoLevel.Model.Pick
 import GoLevel.Model.Score
+import GoLevel.Model.Seek
 import GoLevel.Proofs.LSMSourcesB
 /-!
 Trace validation for the LSM layer (`lsm …` lines, DESIGN.md §2.2 shape 3).
@@ -27,6 +28,9 @@ Each line is checked against the proved model:
                 run on the installed version with the real `GetCompactionL0Trigger()` / `GetCompactionTotalSize(level)`
                 must leave the `cLevel` and `cScore >= 1` the real `computeCompaction` left (a near tie of two different
                 fractions, where `float64` rounding may decide otherwise, is judged on `cScore >= 1` only);
+* `visits`    — differential: the model's `Seek.visits` / `Seek.seekCharge` (`Model/Seek.lean`, proved in `Props/C06Score.lean`)
+                on the version a real `version.get` ran on must name exactly the (level, table) pairs its callback was
+                handed, in order, and agree on whether the first one was charged a seek (`tseek`);
 * `trivial`   — differential: `Pick.newCompaction` from the moved table with the real limits must be `trivial()`;
 * `get`       — `dbGet` on the dumped state (what `C01.lookup_refines_view` is about) answers like `DB.Get`.
 -/
@@ -152,6 +156,23 @@ def scoreVerdict (v : Version) (trigger : Nat) (limits : List Nat) (real : Optio
   if ge1 == realGE1 && (lvl == real || Score.nearTie o v) then "ok"
   else "bad model=" ++ (match lvl with | some l => toString l | none => "none") ++ " " ++ toString ge1
 
+/-- `<n> (<level> <num>)*` -/
+def parseLevelNums : Nat → List String → Option (List (Nat × Nat) × List String)
+  | 0, rest => some ([], rest)
+  | n+1, l :: x :: rest => do
+      let l ← l.toNat?; let x ← x.toNat?
+      let (ps, rest') ← parseLevelNums n rest
+      pure ((l, x) :: ps, rest')
+  | _, _ => none
+
+/-- does the model's lookup walk consult the tables the real `version.get` consulted, and charge the same? -/
+def visitsVerdict (c : UCmp) (v : Version) (k : Bytes) (s : Nat) (real : List (Nat × Nat)) (charged : Option (Nat × Nat)) : String :=
+  let vs := (Seek.visits c [] v k s).map (fun p => (p.1, p.2.num))
+  let ch := (Seek.seekCharge c [] v k s).map (fun p => (p.1, p.2.num))
+  if vs == real && ch == charged then "ok"
+  else "bad model=" ++ vs.foldl (fun acc p => acc ++ " " ++ toString p.1 ++ ":" ++ toString p.2) (toString vs.length) ++
+    " charged=" ++ (match ch with | some p => toString p.1 ++ ":" ++ toString p.2 | none => "none")
+
 /-- is the compaction the model builds from `[t]` trivial? -/
 def trivialVerdict (c : UCmp) (v : Version) (src expandLimit gpLimit : Nat) (t : Table) : String :=
   if !(decide (t ∈ v.lvl src)) then "illegal source-not-in-version"
@@ -228,6 +249,14 @@ def handleLsm (st : LsmState) : List String → Option (LsmState × String)
       if !tail.isEmpty then none
       else match lookupVersion st vid with
         | some v => pure (st, scoreVerdict v trigger limits real (realGE1 == "true"))
+        | none => pure (st, "illegal unknown-version")
+  | "visits" :: vid :: k :: sq :: cl :: cn :: n :: rest => do
+      let vid ← vid.toNat?; let k ← fromHex k; let sq ← sq.toNat?; let n ← n.toNat?
+      let charged ← if cl == "none" then some none else (do let a ← cl.toNat?; let b ← cn.toNat?; pure (some (a, b)))
+      let (real, tail) ← parseLevelNums n rest
+      if !tail.isEmpty then none
+      else match lookupVersion st vid with
+        | some v => pure (st, visitsVerdict st.cmp v k sq real charged)
         | none => pure (st, "illegal unknown-version")
   | ["trivial", vid, src, elimit, glimit, num] => do
       let vid ← vid.toNat?; let src ← src.toNat?; let elimit ← elimit.toNat?; let glimit ← glimit.toNat?
